@@ -323,7 +323,97 @@ func (p c17) composite(c *core.Ctx) {
 	c.Nontrivial("composite|" + tag + "|" + doc)
 }
 
+// jsonLooking: a configured STRING whose text happens to be a JSON document, bound by prefix to targets without a
+// type of their own (an `any` field, the entries of a map[string]any, the elements of a []any) arrives as that
+// string.
+func (p c17) jsonLooking(c *core.Ctx) {
+	texts := []string{"[1,2,3]", `{"a":"b"}`, `["x","y"]`, `{"n":1,"m":{"k":[true]}}`, "[]", "{}", `[{"a":1}]`, "[not json", "{braces} text", `"quoted"`, "[1, 2"}
+	pick := func() string { return texts[c.Rng.Intn(len(texts))] }
+	one, m1, m2, l1, l2 := pick(), pick(), pick(), pick(), pick()
+	tree := map[string]any{"j": map[string]any{"text": one, "m": map[string]any{"first": m1, "second": m2, "plain": "p"}, "l": []any{l1, l2, "p"}}}
+	b, _ := yaml.Marshal(tree)
+	fields := []world.FieldSpec{
+		{Name: "One", Type: world.TypeAny, Tag: `prefix:"j.text"`},
+		{Name: "M", Type: reflect.TypeOf(map[string]any{}), Tag: `prefix:"j.m"`},
+		{Name: "L", Type: reflect.TypeOf([]any{}), Tag: `prefix:"j.l"`},
+		{Name: "S", Type: reflect.TypeOf(""), Tag: `prefix:"j.text"`},
+	}
+	c.Rng.Shuffle(len(fields), func(i, j int) { fields[i], fields[j] = fields[j], fields[i] })
+	h := world.NewHolder(world.BuildStruct(fields))
+	r := world.Start(&world.Scenario{Config: string(b)}, world.Options{Extra: []any{h}, NoTracer: true})
+	c.Count("starts", 1)
+	c.Count("json_looking_strings_bound", 5)
+	detail := map[string]any{"document": string(b), "holder": describeHolder(h)}
+	if r.Outcome() != "ok" {
+		c.Fail("", "start did not succeed: "+core.Short(r.OutcomeDetail(), 300), detail)
+		return
+	}
+	hv := reflect.ValueOf(h).Elem()
+	got := map[string]any{"One": hv.FieldByName("One").Interface(), "M": hv.FieldByName("M").Interface(), "L": hv.FieldByName("L").Interface(), "S": hv.FieldByName("S").Interface()}
+	want := map[string]any{"One": any(one), "M": map[string]any{"first": m1, "second": m2, "plain": "p"}, "L": []any{l1, l2, "p"}, "S": one}
+	for _, k := range []string{"One", "M", "L", "S"} {
+		if !reflect.DeepEqual(got[k], want[k]) {
+			c.Fail("", fmt.Sprintf("field %s bound by prefix holds %#v, configured %#v", k, got[k], want[k]), detail)
+			return
+		}
+	}
+	c.Nontrivial("jsonlooking|" + one + m1 + m2 + l1 + l2)
+}
+
+// statefulPrefix: an untagged pointer field whose type announces its prefix depending on the state of the instance
+// the field holds is bound from the subtree that instance names (a nil field from the one a nil receiver names).
+func (p c17) statefulPrefix(c *core.Ctx) {
+	w := func() string { return plainWords[c.Rng.Intn(len(plainWords))] }
+	names := []string{"main", "replica", "archive"}
+	tree := map[string]any{}
+	hosts := map[string]string{}
+	ports := map[string]int{}
+	for _, n := range append([]string{"default"}, names...) {
+		hosts[n], ports[n] = w()+"-"+n, 1+c.Rng.Intn(9000)
+		tree[n] = map[string]any{"host": hosts[n], "port": ports[n]}
+	}
+	b, _ := yaml.Marshal(map[string]any{"datasource": tree})
+	pt := reflect.TypeOf(&world.NamedSource{})
+	var fields []world.FieldSpec
+	var holds []string
+	for i, n := 0, 1+c.Rng.Intn(4); i < n; i++ {
+		fields = append(fields, world.FieldSpec{Name: fmt.Sprintf("D%d", i), Type: pt})
+		holds = append(holds, append([]string{"default"}, names...)[c.Rng.Intn(4)])
+	}
+	h := world.NewHolder(world.BuildStruct(fields))
+	hv := reflect.ValueOf(h).Elem()
+	for i, n := range holds {
+		if n != "default" || c.Rng.Intn(2) == 0 {
+			hv.Field(i).Set(reflect.ValueOf(world.NewNamedSource(map[bool]string{true: "", false: n}[n == "default"])))
+		}
+	}
+	r := world.Start(&world.Scenario{Config: string(b)}, world.Options{Extra: []any{h}, NoTracer: true})
+	c.Count("starts", 1)
+	c.Count("state_dependent_prefixes_bound", len(holds))
+	detail := map[string]any{"document": string(b), "fields_hold_instances_named": holds}
+	if r.Outcome() != "ok" {
+		c.Fail("", "start did not succeed: "+core.Short(r.OutcomeDetail(), 300), detail)
+		return
+	}
+	for i, n := range holds {
+		d, _ := hv.Field(i).Interface().(*world.NamedSource)
+		if d == nil || d.Host != hosts[n] || d.Port != ports[n] {
+			c.Fail("", fmt.Sprintf("field D%d holds the instance named %q (prefix %q): bound %+v, configured {host:%s port:%d}", i, n, "datasource."+n, d, hosts[n], ports[n]), detail)
+			return
+		}
+	}
+	c.Nontrivial(fmt.Sprint("statefulprefix|", holds))
+}
+
 func (p c17) Run(c *core.Ctx) {
+	if c.Index%20 == 2 {
+		p.jsonLooking(c)
+		return
+	}
+	if c.Index%20 == 7 {
+		p.statefulPrefix(c)
+		return
+	}
 	if c.Index%20 == 6 {
 		p.memberCase(c)
 		return
